@@ -15,8 +15,12 @@ input leaves the modelled domain (a vertex without three coordinates, a negative
   record; for off the per-record if-chain on the arity, the `*_corners` bookkeeping being outside the token-level mesh),
   `parse_vertex` (evaluated for a token without '/') + `parse_obj_data` (line loop with its branch bodies filling the mesh and the list
   of face records, then the loop over the face records with its `tid` / `nid` guards).
-  deque() / strip() / split() / dropping blank lines are the token-level glue.  `import_medit` (its dispatch table is translated by
-  vlib/props/c04.py), `_import_stl_ascii` and the geogram codec are NOT compiled (hand models / oracle).
+  `parse_field` + `import_medit` (the `while data:` loop compiled to recursion on a fuel argument, every keyword branch: count line,
+  vertex lines / `parse_field` block, `End` = break; bridged to the line-by-line automaton `stepMedit` of the hand model).
+  deque() / strip() / split() / dropping blank lines are the token-level glue.  `_import_stl_ascii` and the geogram codec are NOT
+  compiled (oracle / hand model).
+GLUE (`mesh.py: load`, `save`): statement by statement into Generated/C04Glue.lean (`load`: read, raw switch, instantiate; `save`: order
+adjacency-for-geogram / re-wrap / ignore block / write; the guards of the ignore block are the table of Generated/C04Save.lean).
 
 Tolerated respellings (normalised away, the generated text does not change): renamed locals / parameters / file handles, operand order
 of `==`, `a > b` = `b < a`, `not a == b`, `x = x + e` = `x += e`, `'{}'.format(e)` = f'{e}' (and = `str(e)` for integers ONLY: str() of a numpy float32 coordinate is
@@ -832,12 +836,7 @@ def dispatch():
         else:
             raise TranslateError(f"_instanciate_raw_mesh_data: statement not recognised: `{u[:70]}`")
     if default is None or not saw_max: raise TranslateError("_instanciate_raw_mesh_data: default / max not found")
-    # load(): data = read_by_extension(filename); if raw: return data; return _instanciate_raw_mesh_data(data, dim)
-    ld = norm_body(T.find_def(tree, "load"))
-    lsrc = [ast.unparse(s) for s in ld]
-    if lsrc != ["data = read_by_extension(filename)", "if raw:\n    return data", "return _instanciate_raw_mesh_data(data, dim)"]:
-        lp = [a.arg for a in T.find_def(tree, "load").args.args]
-        raise TranslateError(f"load: body not recognised ({' ; '.join(lsrc)[:120]})")
+    # (load() itself is compiled by glue())
     rows3 = lambda rs: ", ".join(f"({lean_str(a)}, {lean_str(b)}, {lean_str(c)})" for a, b, c in rs)
     txt = ("namespace Mouette.Generated.C04D\n\n"
            "/-- `io.py: read_by_extension`: (lower-cased extension, codec module, function), sorted by extension -/\n"
@@ -1283,6 +1282,97 @@ def compile_obj_reader(tree):
     return pv_txt, line_txt, corner_txt
 
 
+def compile_medit_reader(tree):
+    """`parse_field` + `import_medit` -> Lean text of fieldRecord / parseField / meditLoop / importMedit.
+    Token level: a stripped line equal to a keyword is the one-token line `[kw]`; `int(<line>)` needs a one-token line; blank lines
+    (ignored by the `while` loop between blocks) are already dropped.  `container.append(d)` is `pushElem` of Model/IO.lean
+    (an edge record must be a pair).  The `while data:` loop is compiled to recursion on a fuel argument (> number of lines)."""
+    # ---- parse_field
+    pf = T.find_def(tree, "parse_field")
+    ps = [a.arg for a in pf.args.args]
+    if len(ps) != 4: raise TranslateError("parse_field: expected (data, container, nlines, nelem)")
+    dq, cont, nl, ne = ps
+    b = norm_body(pf)
+    ok = len(b) == 1 and isinstance(b[0], ast.For) and ast.unparse(b[0].iter) == f"range({nl})" and isinstance(b[0].target, ast.Name) and len(b[0].body) == 3
+    if ok:
+        l0, l1, l2 = b[0].body
+        ok = (isinstance(l0, ast.Assign) and isinstance(l0.targets[0], ast.Name) and ast.unparse(l0.value) in (f"{dq}.popleft().split()", f"{dq}.popleft().strip().split()"))
+    if ok:
+        ln = l0.targets[0].id
+        ok = isinstance(l1, ast.Assign) and isinstance(l1.targets[0], ast.Name) and re.fullmatch(
+            rf"\[int\((\w+)(\.strip\(\))?\) - 1 for \1 in {ln}\]\[:{ne}\]", ast.unparse(l1.value)) is not None
+    if ok:
+        ok = ast.unparse(l2) == f"{cont}.append({l1.targets[0].id})"
+    if not ok: raise TranslateError("parse_field: body is not `for _ in range(nlines): line = data.popleft().split(); d = [int(u) - 1 for u in line][:nelem]; container.append(d)`")
+    # ---- import_medit
+    fn = T.find_def(tree, "import_medit")
+    body = norm_body(fn)
+    out, dqm, loop = None, None, None
+    for st in body:
+        u = ast.unparse(st)
+        if isinstance(st, ast.Assign) and isinstance(st.targets[0], ast.Name) and ast.unparse(st.value) == "RawMeshData()": out = st.targets[0].id; continue
+        if isinstance(st, ast.Assign) and isinstance(st.targets[0], ast.Name) and ast.unparse(st.value) == "deque()": continue
+        if isinstance(st, ast.With) and len(st.body) == 1:
+            m = re.fullmatch(r"(\w+) = deque\(\[(\w+)\.strip\(\) for \2 in (\w+)\.readlines\(\)\]\)", ast.unparse(st.body[0]))
+            it = st.items[0]
+            if m and isinstance(it.optional_vars, ast.Name) and it.optional_vars.id == m.group(3) and ast.unparse(it.context_expr.func) == "open":
+                dqm = m.group(1); continue
+        if isinstance(st, ast.While) and loop is None and dqm and ast.unparse(st.test) == dqm and not st.orelse: loop = st; continue
+        if isinstance(st, ast.Return) and ast.unparse(st.value) == out and st is body[-1]: continue
+        raise TranslateError(f"import_medit: statement not recognised: `{u[:70]}`")
+    if loop is None or out is None: raise TranslateError("import_medit: `while data:` loop not found")
+    lb = loop.body
+    if not (len(lb) == 2 and isinstance(lb[0], ast.Assign) and isinstance(lb[0].targets[0], ast.Name) and ast.unparse(lb[0].value) == f"{dqm}.popleft()" and isinstance(lb[1], ast.If)):
+        raise TranslateError("import_medit: loop body is not `line = data.popleft()` followed by one if/elif chain")
+    line = lb[0].targets[0].id
+    count = ["match popLine d with", "| none => none", "| some (l1, d) =>", "match (one l1).bind readNat with", "| none => none", "| some n1 =>"]
+
+    def branch(stmts, kw):
+        if len(stmts) == 1 and isinstance(stmts[0], ast.Break): return ["some r"]
+        if len(stmts) == 2 and isinstance(stmts[0], ast.Assign) and isinstance(stmts[0].targets[0], ast.Name) and ast.unparse(stmts[0].value) == f"int({dqm}.popleft())":
+            n = stmts[0].targets[0].id
+            s1 = stmts[1]
+            m = re.fullmatch(rf"parse_field\({dqm}, {out}\.(edges|faces|cells), {n}, (\d+)\)", ast.unparse(s1))
+            if m:
+                return count + [f"match parseField .{m.group(1)} n1 {m.group(2)} (d, r) with", "| none => none", "| some s => meditLoop cd fuel s"]
+            if isinstance(s1, ast.For) and ast.unparse(s1.iter) == f"range({n})" and isinstance(s1.target, ast.Name) and len(s1.body) == 3:
+                a0, a1, a2 = s1.body
+                if isinstance(a0, ast.Assign) and isinstance(a0.targets[0], ast.Name) and ast.unparse(a0.value) in (f"{dqm}.popleft().split()", f"{dqm}.popleft().strip().split()") \
+                        and isinstance(a1, ast.Assign) and isinstance(a1.targets[0], ast.Name):
+                    m2 = re.fullmatch(rf"\[float\((\w+)(\.strip\(\))?\) for \1 in {a0.targets[0].id}\[:(\d+)\]\]", ast.unparse(a1.value))
+                    if m2 and ast.unparse(a2) == f"{out}.vertices.append({a1.targets[0].id})":
+                        return count + [f"match popEach (fun l => (mapOpt (readNum cd) (slice 0 (some {m2.group(3)}) l)).bind vec3) (fun r x => {{ r with verts := r.verts ++ [x] }}) n1 (d, r) with",
+                                        "| none => none", "| some s => meditLoop cd fuel s"]
+        raise TranslateError(f"import_medit: branch `{kw}` not recognised: `{' ; '.join(ast.unparse(x) for x in stmts)[:90]}`")
+    out_lines, node, first = [], lb[1], True
+    while True:
+        t = node.test
+        if not (isinstance(t, ast.Compare) and ast.unparse(t.left) == line and len(t.ops) == 1 and isinstance(t.ops[0], ast.Eq)
+                and isinstance(t.comparators[0], ast.Constant) and isinstance(t.comparators[0].value, str) and len(t.comparators[0].value.split()) == 1):
+            raise TranslateError(f"import_medit: branch test is not `line == \"Keyword\"`: `{ast.unparse(t)[:50]}`")
+        kw = t.comparators[0].value
+        br = branch(node.body, kw)
+        head = f"{'if' if first else 'else if'} line == [{_word(kw)}] then"
+        if len(br) == 1: out_lines.append(f"    {head} {br[0]}")
+        else: out_lines += [f"    {head}"] + ["      " + x for x in br]
+        first = False
+        if len(node.orelse) == 1 and isinstance(node.orelse[0], ast.If): node = node.orelse[0]
+        elif not node.orelse: break
+        else: raise TranslateError("import_medit: trailing else branch")
+    out_lines.append("    else meditLoop cd fuel (d, r)")
+    txt = ("/-- `medit.py: parse_field`: one line -> `[int(u.strip()) - 1 for u in line][:nelem]` -/\n"
+           "def fieldRecord (nelem : Nat) (l : Line) : Option (List Nat) :=\n  match mapOpt readInt l with\n  | none => none\n  | some is => mapOpt decr1 (is.take nelem)\n\n"
+           "/-- `medit.py: parse_field(data, container, nlines, nelem)` -/\n"
+           "def parseField (c : Cont) (nlines nelem : Nat) (s : RSt C) : Option (RSt C) :=\n"
+           "  popFold (fun r l => match fieldRecord nelem l with\n    | none => none\n    | some x => pushElem r c x) nlines s\n\n"
+           "/-- `medit.py: import_medit`: the `while data:` loop on a fuel argument (called with more fuel than lines) -/\n"
+           "def meditLoop (cd : Codec C) : Nat → RSt C → Option (Raw C)\n  | 0, s => some s.2\n  | fuel + 1, (d, r) =>\n"
+           "    match popLine d with\n    | none => some r\n    | some (line, d) =>\n" + "\n".join(out_lines) + "\n\n"
+           "/-- `import_medit` -/\n"
+           "def importMedit (cd : Codec C) (file : File) : Option (Raw C) := meditLoop cd (file.length + 1) (file, Raw.empty)\n")
+    return txt
+
+
 def readers():
     tree, _ = T.load("mouette/mesh/io/xyz.py")
     step = compile_xyz_reader(tree)
@@ -1292,6 +1382,8 @@ def readers():
     offrec, off = compile_off_reader(tree)
     tree, _ = T.load("mouette/mesh/io/obj.py")
     objpv, objline, objcorner = compile_obj_reader(tree)
+    tree, _ = T.load("mouette/mesh/io/medit.py")
+    medit = compile_medit_reader(tree)
     txt = ("import Mouette.Model.IOSource\nnamespace Mouette.Generated.C04R\nopen Mouette.IO Mouette.IOS\nvariable {C : Type}\n\n"
            "/-- `xyz.py: import_xyz`: one iteration of `for v in f.readlines()` on the token line `l` -/\n"
            "def xyzStep (cd : Codec C) (r : Raw C) (l : Line) : Option (Raw C) :=\n  " + step + "\n\n"
@@ -1313,7 +1405,70 @@ def readers():
            "def parseObj (cd : Codec C) (file : File) : Option (Raw C) :=\n"
            "  match foldOpt (objLine cd) (Raw.empty, []) file with\n  | none => none\n  | some (r, faces) =>\n"
            "  match mapOpt (fun F => mapOpt objCorner F) faces with\n  | none => none\n  | some fs => some { r with faces := r.faces ++ fs }\n\n"
-           "end Mouette.Generated.C04R\n")
-    return txt, {"parse_obj_data": {"assumed": ["normals / texture coordinates outside the property (vn, vt, v/vt/vn corners -> outside the domain)",
+           + medit + "\nend Mouette.Generated.C04R\n")
+    return txt, {"import_medit": {"assumed": ["blank lines between blocks are dropped at token level", "an edge record must be a pair (pushElem)"]},
+                 "parse_obj_data": {"assumed": ["normals / texture coordinates outside the property (vn, vt, v/vt/vn corners -> outside the domain)",
                                                  "face_corners bookkeeping outside the token-level mesh"]}, "parse_off_data": {"assumed": ["*_corners bookkeeping outside the token-level mesh", "negative counts outside the domain",
                                                  "arity-2 branch (min/max of token strings) outside the domain"]}, "import_xyz": {"assumed": ["the normals side list / attribute is outside the property"]}, "parse_tet_data": {"assumed": []}}
+
+
+# ------------------------------------------------------------------------------------------------------------------
+# generated file: the glue of mesh.py: load / save
+# ------------------------------------------------------------------------------------------------------------------
+def glue():
+    """`mesh.py: load` and `save` statement by statement -> Generated/C04Glue.lean (`load`, `saveContent`)."""
+    tree, _ = T.load("mouette/mesh/mesh.py")
+    # ---- load(filename, dim, raw)
+    fn = T.find_def(tree, "load")
+    ps = [a.arg for a in fn.args.args]
+    b = norm_body(fn)
+    if len(b) != 3: raise TranslateError(f"load: expected three statements, found {len(b)}")
+    s1, s2, s3 = b
+    if not (isinstance(s1, ast.Assign) and isinstance(s1.targets[0], ast.Name) and isinstance(s1.value, ast.Call) and ast.unparse(s1.value.func) == "read_by_extension"
+            and len(s1.value.args) == 1 and ast.unparse(s1.value.args[0]) == ps[0]):
+        raise TranslateError(f"load: first statement is not `data = read_by_extension({ps[0]})`")
+    d = s1.targets[0].id
+    if not (isinstance(s3, ast.Return) and isinstance(s3.value, ast.Call) and ast.unparse(s3.value.func) == "_instanciate_raw_mesh_data" and len(s3.value.args) == 2
+            and ast.unparse(s3.value.args[0]) == d and isinstance(s3.value.args[1], ast.Name) and s3.value.args[1].id in ps):
+        raise TranslateError("load: last statement is not `return _instanciate_raw_mesh_data(data, dim)`")
+    dimp = s3.value.args[1].id
+    if not (isinstance(s2, ast.If) and not s2.orelse and len(s2.body) == 1 and isinstance(s2.body[0], ast.Return) and ast.unparse(s2.body[0].value) == d):
+        raise TranslateError("load: second statement is not `if <raw>: return data`")
+    t = s2.test
+    if isinstance(t, ast.Name) and t.id in ps and t.id not in (ps[0], dimp): cond = "raw"
+    elif isinstance(t, ast.UnaryOp) and isinstance(t.op, ast.Not) and isinstance(t.operand, ast.Name) and t.operand.id in ps and t.operand.id not in (ps[0], dimp): cond = "(!raw)"
+    else: raise TranslateError(f"load: condition `{ast.unparse(t)}` is not the raw switch")
+    # ---- save(mesh, filename, ignore_elements)
+    fn = T.find_def(tree, "save")
+    ps = [a.arg for a in fn.args.args]
+    if len(ps) != 3: raise TranslateError("save: expected (mesh, filename, ignore_elements)")
+    mesh, fname, ign = ps
+    b = norm_body(fn)
+    raw, seen_adj, seen_ign, seen_write = None, False, False, False
+    for st in b:
+        u = ast.unparse(st)
+        if isinstance(st, ast.If) and not st.orelse and len(st.body) == 1 and ast.unparse(st.body[0]) == f"{mesh}.connectivity._compute_adjacent_cell()" \
+                and f"'.geogram' in {fname}" in ast.unparse(st.test) and not seen_write:
+            seen_adj = True; continue           # cell adjacency for geogram (the guard itself is not modelled)
+        if isinstance(st, ast.Assign) and isinstance(st.targets[0], ast.Name) and ast.unparse(st.value) == f"RawMeshData({mesh})" and raw is None and not seen_ign:
+            raw = st.targets[0].id; continue
+        if isinstance(st, ast.If) and ast.unparse(st.test) == f"{ign} is not None" and not st.orelse and raw and not seen_ign and not seen_write:
+            seen_ign = True; continue           # its guards are translated by the site of vlib/props/c04.py (Generated.C04Save)
+        if raw and u == f"write_by_extension({raw}, {fname})" and st is b[-1] and seen_ign:
+            seen_write = True; continue
+        raise TranslateError(f"save: statement not recognised or out of order: `{u[:70]}`")
+    if not (raw and seen_adj and seen_ign and seen_write): raise TranslateError("save: re-wrap / adjacency / ignore block / write not all found")
+    txt = ("import Mouette.Generated.C04Dispatch\nimport Mouette.Generated.C04Save\nnamespace Mouette.Generated.C04G\nopen Mouette.IO Mouette.IO.Tables\n\n"
+           "/-- what `load` returns: the RawMeshData itself, or the object built by `_instanciate_raw_mesh_data` (its class; `none`: no class) -/\n"
+           "inductive Loaded (α : Type) where\n  | rawData (d : α)\n  | mesh (cls : Option String) (d : α)\nderiving DecidableEq, Repr\n\n"
+           "/-- `mesh.py: load(filename, dim, raw)`: `read` = what `read_by_extension` returned (`none`: it raised), `dimensionality` = of the data after\n"
+           "`prepare()` (first statement of `_instanciate_raw_mesh_data`) -/\n"
+           "def load {α : Type} (read : Option α) (dimensionality : α → Nat) (dimArg : Option Int) (raw : Bool) : Option (Loaded α) :=\n"
+           "  match read with\n  | none => none\n  | some data =>\n"
+           f"    if {cond} then some (.rawData data)\n    else some (.mesh (Mouette.Generated.C04D.instantiate dimArg (dimensionality data)) data)\n\n"
+           "/-- `mesh.py: save(mesh, filename, ignore_elements)`: the content handed to `write_by_extension`: the re-wrapped mesh, with the containers\n"
+           "named by the guards of the `if ignore_elements is not None:` block emptied (table `Generated.C04Save.ignoreRows`) -/\n"
+           "def saveContent {C : Type} (ignore : Option Ignore) (m : Raw C) : Raw C :=\n"
+           "  match ignore with\n  | none => m\n  | some ig => applyIgnoreWith Mouette.Generated.C04Save.ignoreRows ig m\n\n"
+           "end Mouette.Generated.C04G\n")
+    return txt, {"load": {"raw_switch": cond}, "save": {"order": ["adjacency for geogram", "re-wrap", "ignore block", "write_by_extension"]}}
